@@ -78,6 +78,8 @@ type hooks struct {
 	calls    map[string]int
 	decided  map[string]int
 	rtDec    map[string]int
+	// only, when set, restricts the fault alphabet (index 0 stays "ok")
+	only []int
 }
 
 func (h *hooks) OutcomeAt(string) model.Outcome { return model.OK }
@@ -91,7 +93,11 @@ func (h *hooks) Resolve(typeName string, f *gen.FieldDef, p graphql.ResolveParam
 	o, ok := h.decided[path]
 	if !ok {
 		o = 0
-		if h.x != nil {
+		if h.x != nil && h.only != nil {
+			if k := h.x.Dev(len(h.only)+1, "outcome"); k > 0 {
+				o = h.only[k-1]
+			}
+		} else if h.x != nil {
 			o = h.x.Dev(nOutcomes, "outcome")
 		}
 		h.decided[path] = o
@@ -184,10 +190,17 @@ type lattice struct {
 	w1, w2, w3 int
 	l1         int
 	leaf       int
+	// mut: the same selection as a mutation (top-level fields forced one after another,
+	// everything deferred below them depth first)
+	mut bool
 }
 
 func (l lattice) String() string {
-	return fmt.Sprintf("Query.f1:%s A.f2:%s B.f3:%s", fmt.Sprintf(wrappers[l.w1], level1[l.l1]), fmt.Sprintf(wrappers[l.w2], "B"), fmt.Sprintf(wrappers[l.w3], leafTypes[l.leaf]))
+	root := "Query"
+	if l.mut {
+		root = "Mutation"
+	}
+	return fmt.Sprintf("%s.f1:%s A.f2:%s B.f3:%s", root, fmt.Sprintf(wrappers[l.w1], level1[l.l1]), fmt.Sprintf(wrappers[l.w2], "B"), fmt.Sprintf(wrappers[l.w3], leafTypes[l.leaf]))
 }
 
 func (l lattice) schema() *gen.Schema {
@@ -200,10 +213,18 @@ func (l lattice) schema() *gen.Schema {
 	s.Add(&gen.TypeDef{Kind: gen.KObject, Name: "A2", Interfaces: []string{"IA"}, Fields: []*gen.FieldDef{gen.F(f2), gen.F("sa:String")}})
 	s.Add(&gen.TypeDef{Kind: gen.KUnion, Name: "UA", Members: []string{"A", "A2"}})
 	s.Add(&gen.TypeDef{Kind: gen.KObject, Name: "Query", Fields: []*gen.FieldDef{gen.F("f1:" + fmt.Sprintf(wrappers[l.w1], level1[l.l1])), gen.F("q:String"), gen.F("r:Int!")}})
+	if l.mut {
+		s.Mutation = "Mutation"
+		s.Add(&gen.TypeDef{Kind: gen.KObject, Name: "Mutation", Fields: s.Types["Query"].Fields})
+	}
 	return s
 }
 
 func (l lattice) query() string {
+	if l.mut {
+		l.mut = false
+		return "mutation " + l.query()
+	}
 	switch level1[l.l1] {
 	case "UA":
 		return `{q f1 {__typename ... on A {f2 {f3 sb} sa} ... on A2 {f2 {f3 sb} sa}} r}`
@@ -703,7 +724,10 @@ func lattices(reduced bool) []lattice {
 			for _, w3 := range ws {
 				for l1 := range level1 {
 					for _, lf := range ls {
-						out = append(out, lattice{w1, w2, w3, l1, lf})
+						out = append(out, lattice{w1: w1, w2: w2, w3: w3, l1: l1, leaf: lf})
+						if reduced {
+							out = append(out, lattice{w1: w1, w2: w2, w3: w3, l1: l1, leaf: lf, mut: true})
+						}
 					}
 				}
 			}
@@ -718,11 +742,15 @@ func run(c *core.Ctx) {
 	type phase struct {
 		reduced bool
 		k       int
+		// deferred: mutation lattices only, faults among the deferred kinds only (deep
+		// chains of thunks below a serially executed top-level field)
+		deferred bool
 	}
-	phases := []phase{{false, 1}, {true, 2}}
+	phases := []phase{{false, 1, false}, {true, 2, false}, {true, 3, true}}
 	if !c.Quick() {
-		phases = []phase{{false, 2}, {true, 3}}
+		phases = []phase{{false, 2, false}, {true, 3, false}, {true, 4, true}}
 	}
+	c.R.Bounds["deferred_only_faults_on_mutation_lattices"] = phases[2].k
 	c.R.Bounds["faults_full_lattice"] = phases[0].k
 	c.R.Bounds["faults_reduced_lattice"] = phases[1].k
 	for _, ph := range phases {
@@ -735,12 +763,19 @@ func run(c *core.Ctx) {
 			if c.Expired() {
 				return
 			}
+			if ph.deferred && !l.mut {
+				continue
+			}
 			f, err := newFixture(l)
 			if err != nil {
 				c.Mismatch("", "fault-free run", err.Error(), map[string]interface{}{"lattice": li, "reduced": ph.reduced, "choices": []int{}})
 				continue
 			}
-			e := &explore.Explorer{MaxDev: ph.k, NShards: 1, Deadline: c.Deadline}
+			if ph.deferred {
+				f.h.only = []int{oThunkOK, oThunkErr, oThunkNil}
+			}
+			e := c.Explorer(ph.k) // lattices are sharded, not executions
+			e.Shard, e.NShards, e.ShardLevel = 0, 1, 0
 			e.Run(func(x *explore.X, owned bool) uint64 {
 				out := f.run(x)
 				dig := report.H(out.result + out.bad)
@@ -758,7 +793,7 @@ func run(c *core.Ctx) {
 				}
 				if out.bad != "" {
 					c.Mismatch(out.fid, sigOf(out.bad), fmt.Sprintf("%s, faults %v: %s -- response %s", l, out.troubles, out.bad, out.result),
-						map[string]interface{}{"lattice": li, "reduced": ph.reduced, "choices": x.Trace()})
+						map[string]interface{}{"lattice": li, "reduced": ph.reduced, "choices": x.Trace(), "deferred": ph.deferred})
 				}
 				return dig
 			})
@@ -794,6 +829,9 @@ func replay(c *core.Ctx, p map[string]interface{}) (bool, string) {
 	f, err := newFixture(ls[li])
 	if err != nil {
 		return false, err.Error()
+	}
+	if d, _ := p["deferred"].(bool); d {
+		f.h.only = []int{oThunkOK, oThunkErr, oThunkNil}
 	}
 	var out outcome
 	explore.Replay(choices, 0, func(x *explore.X, owned bool) uint64 {
